@@ -379,7 +379,13 @@ func (an *Analysis) handleStructFields(typ *types.Struct, ctx context) []StructF
 		if field.Embedded() {
 			if st, isStruct := fieldType.(*Struct); isStruct {
 				log.Printf("gomacro: embedded struct field %s will be flattened", field.Name())
-				for _, promoted := range st.Fields {
+				promotedFields := st.Fields
+				if under, ok := field.Type().Underlying().(*types.Struct); ok && promotedFields == nil {
+					// the embedded struct is still being analysed (it lies on a cycle,
+					// like Inner{ Kids []Outer } embedded by Outer) : read its definition
+					promotedFields = an.handleStructFields(under, ctx)
+				}
+				for _, promoted := range promotedFields {
 					promoted.depth++
 					out = append(out, promoted)
 				}
